@@ -53,12 +53,21 @@ def rules(ctx, db):
              [bb for bb, t in calls(f, r"^compio_actor::mailbox::receiver::Receiver::<A>::close$")]
         # ... and it must empty the queue: a queued Call keeps its reply sender (and its caller) alive as long as any
         # Mailbox clone exists, because the channel drops queued items only with its last sender
+        # ... and the release must empty the queue: in the receiver's Drop (every way the actor can end) or in the
+        # consuming method the actor calls
+        ra = db.adts.get("compio_actor::mailbox::receiver::Receiver")
         rel = [g for g in db.fns.values() if g.name == "compio_actor::mailbox::receiver::Receiver::<A>::close"]
-        drains = any(calls(g, r"^flume::Receiver::<T>::(drain|try_recv|try_iter)$") for g in rel) or \
-            any(calls(h, r"^flume::Receiver::<T>::(drain|try_recv|try_iter)$") for g in rel for h in db.succ_fns(g))
-        ctx.ob("R1", "release-empties-the-queue", bool(rel) and drains and bool(calls(f, r"Receiver::<A>::close$")),
-               "the actor closes its receiver through a method that drains the message queue, so calls still queued at "
-               "exit observe NoReply instead of hanging", f)
+        if ra is not None and ra.get("drop") in db.fns:
+            rel.append(db.fns[ra["drop"]])
+        DR = r"^flume::Receiver::<T>::(drain|try_recv|try_iter)$"
+        drains_in_drop = ra is not None and ra.get("drop") in db.fns and bool(calls(db.fns[ra["drop"]], DR))
+        drains = any(calls(g, DR) for g in rel) or any(calls(h, DR) for g in rel for h in db.succ_fns(g))
+        ctx.ob("R1", "release-empties-the-queue", drains and bool(dr),
+               "the receiver's release drains the message queue, so calls still queued when the actor ends observe NoReply "
+               "instead of hanging", f)
+        ctx.ob("R1", "queue-emptied-however-the-actor-ends", drains_in_drop,
+               "the drain lives in Drop for Receiver: a failed pre_start, a panicking handler and a joined cluster drop the "
+               "receiver without passing finish()", f)
         post = [bb for bb, t in calls(f, r"Actor::post_stop$")]
         ok = all(len(x) == 1 for x in (bs, pre, dr, post)) and f.cfg.dominates(bs[0], pre[0]) and \
             f.cfg.dominates(pre[0], dr[0]) and f.cfg.dominates(dr[0], post[0])
